@@ -189,8 +189,13 @@ def parse_ref(ref):
     return (stage, producer, path or None, method)
 
 
-def is_noncomponent(producer, nonc):
-    return producer.startswith('/') or producer in RESERVED or producer in nonc
+def is_noncomponent(producer, nonc, stage=None):
+    """Is `[stageN.]producer...` a reference to a folder/path rather than to a component?  Folders have no stage: a
+    reference with an explicit stage prefix names a component even when a folder of the package (application
+    dependency, top-level folder) has the same name; only the spelling without a stage prefix means the folder."""
+    if producer.startswith('/'):
+        return True
+    return stage is None and (producer in RESERVED or producer in nonc)
 
 
 ARG_REF_RE = re.compile(r'(?:stage\d+\.)?[A-Za-z0-9_.#-]+(?:/[A-Za-z0-9_./-]*)?:(?:%s)\b' % '|'.join(METHODS))
@@ -212,6 +217,7 @@ class Analysis(object):
         self.containers = []       # (path, scope) of every dict whose keys are fixed by the schema
         self.comp_ids = []         # ids of executable (non-import) main components + placeholders
         self.edges = []
+        self.replicas = None       # {where: replicas} when the model can tell
 
     def fault_scopes(self, judge_all=True):
         """{fault kind: sorted scopes}. Unknown keys / wrong types carry the scope of the place they were found at:
@@ -484,12 +490,14 @@ def analyse(root, platform, nonc=()):
                 target = parse_ref(given_bindings.get(producer)) if isinstance(given_bindings.get(producer), str) else None
                 if target is None:
                     continue
+                if is_noncomponent(target[1], nonc, target[0]):
+                    continue
                 stage, producer = target[0] if target[0] is not None else imports[0]['stage'], target[1]
-                if stage is None or is_noncomponent(producer, nonc):
+                if stage is None:
                     continue
                 tid = (stage, producer)
             else:
-                if is_noncomponent(producer, nonc):
+                if is_noncomponent(producer, nonc, stage):
                     continue
                 tid = ((stage + e.get('offset', 0)) if stage is not None else e['stage'], producer)
             declared.add(tid + (path, method))
@@ -505,7 +513,7 @@ def analyse(root, platform, nonc=()):
         for a in (args, over_args):
             for tok in ARG_REF_RE.findall(a) if isinstance(a, str) else []:
                 p = parse_ref(tok)
-                if p is None or is_noncomponent(p[1], nonc) or (e['loop'] and p[0] is None and p[1] in input_bindings):
+                if p is None or is_noncomponent(p[1], nonc, p[0]) or (e['loop'] and p[0] is None and p[1] in input_bindings):
                     continue
                 tid = ((p[0] + e.get('offset', 0)) if p[0] is not None else e['stage'], p[1])
                 if tid in exec_ids and tid + (p[2], p[3]) not in declared:
@@ -542,10 +550,10 @@ def analyse(root, platform, nonc=()):
     # ---- references outside components (outputs / status report): open
     for name, out in _dict(doc.get('output')).items():
         p = parse_ref(_get(out, 'data-in')) if isinstance(_get(out, 'data-in'), str) else None
-        if p is not None and not is_noncomponent(p[1], nonc) and p[0] is not None and (p[0], p[1]) not in exec_ids:
+        if p is not None and not is_noncomponent(p[1], nonc, p[0]) and p[0] is not None and (p[0], p[1]) not in exec_ids:
             an.grey.append('output-references-missing-component:%s' % name)
 
-    # ---- variables
+    # ---- variables: what each component can see
     variables = _dict(doc.get('variables'))
     blueprint = _dict(doc.get('blueprint'))
     used_anywhere = set()
@@ -560,12 +568,34 @@ def analyse(root, platform, nonc=()):
                     c.get('variables'), _get(c, 'override', plat, 'variables')):
             if isinstance(src, dict):
                 ctx.update(src)
-        layers = [_get(blueprint, DEFAULT, 'global'), _get(_get(blueprint, DEFAULT, 'stages'), st)]
+        e['ctx'] = ctx
+        e['layers'] = [_get(blueprint, DEFAULT, 'global'), _get(_get(blueprint, DEFAULT, 'stages'), st)]
         if plat != DEFAULT:
-            layers += [_get(blueprint, plat, 'global'), _get(_get(blueprint, plat, 'stages'), st)]
+            e['layers'] += [_get(blueprint, plat, 'global'), _get(_get(blueprint, plat, 'stages'), st)]
+
+    # ---- replication: which components are expanded into <name><k>, identifiers after expansion
+    replicas = _replication(allc, an, plat)
+    an.replicas = replicas
+    if replicas is not None:
+        expanded = {}
+        for e in allc:
+            if e['name'] is None or e['stage'] is None:
+                continue
+            n = replicas.get(e['where'], 0)
+            for xid in ([(e['stage'], '%s%d' % (e['name'], k)) for k in range(n)] if n else [(e['stage'], e['name'])]):
+                expanded.setdefault(xid, []).append(e)
+        for xid, owners in sorted(expanded.items()):
+            if len(owners) > 1 and len(set(o['name'] for o in owners)) > 1:
+                an.duplicates.append('stage%s.%s (after replication)' % xid)
+
+    # ---- variables: every name a component uses must be defined for it
+    for e in allc:
+        if e['stage'] is None:
+            continue
+        c, st, ctx = e['comp'], e['stage'], e['ctx']
         strings = _strings(c, skip=('variables', 'override'))
         strings += _strings(_dict(_get(c, 'override', plat)), skip=('variables',))
-        for l in layers:
+        for l in e['layers']:
             strings += _strings(_dict(l))
         todo = [n for s in strings for n in VAR_RE.findall(s)]
         done = set()
@@ -577,11 +607,25 @@ def analyse(root, platform, nonc=()):
             if n in ctx:
                 if isinstance(ctx[n], str):
                     todo.extend(VAR_RE.findall(ctx[n]))
+            elif n == 'replica':
+                # defined by replication, and only for the components that are replicated
+                if replicas is not None and not replicas.get(e['where'], 0):
+                    an.undefined.append(('stage%s.%s' % (st, e['name']), n))
             elif n not in BUILTIN_VARS:
                 an.undefined.append(('stage%s.%s' % (st, e['name']), n))
         used_anywhere |= done
         e['used_vars'] = done
-        e['ctx'] = ctx
+
+    # ---- variables inside environment values: resolved leniently by design, not part of a component configuration
+    envs = _dict(doc.get('environments'))
+    gvars = dict(_dict(_get(variables, DEFAULT, 'global')))
+    gvars.update(_dict(_get(variables, plat, 'global')))
+    for label in sorted(set((DEFAULT, plat))):
+        for ename, env in _dict(envs.get(label)).items():
+            for s_ in _strings(_dict(env)):
+                for n in VAR_RE.findall(s_):
+                    if n not in gvars and n not in _dict(env):
+                        an.grey.append('undefined-variable-in-environment:%s.%s' % (ename, n))
     an.used_vars = used_anywhere
     # a wrongly typed value that a higher layer overrides for every component it applies to (or a variable nobody
     # uses) never reaches a component: the statement does not say whether that workflow "contains" the fault
@@ -589,6 +633,71 @@ def analyse(root, platform, nonc=()):
                      'ineffective' if sc == 'active' and effective(allc, root, platform, p) is False else sc))
                 for p, sc in an.wrong]
     return an
+
+
+def _replication(allc, an, plat):
+    """{where: number of replicas (0 = not replicated)} or None when the model cannot tell (then nothing that depends
+    on replication is judged).  A component is replicated n times when it sets replicate n, or consumes from a
+    replicated component that does not aggregate; an aggregating component is never replicated itself."""
+    by_id = {}
+    for e in allc:
+        if e['name'] is None or e['stage'] is None:
+            continue
+        if (e['stage'], e['name']) in by_id:
+            return None
+        by_id[(e['stage'], e['name'])] = e
+    own, agg = {}, {}
+    for cid, e in by_id.items():
+        for l in list(e.get('layers', [])) + [_get(e['comp'], 'override', plat)]:
+            wa = _get(l, 'workflowAttributes')
+            if isinstance(wa, dict) and (wa.get('replicate') not in (None, 0) or wa.get('aggregate') not in (None, False)):
+                return None     # replication decided by a blueprint / override layer: not modelled
+        wa = _dict(_get(e['comp'], 'workflowAttributes'))
+        rep, ag = wa.get('replicate'), wa.get('aggregate')
+        if isinstance(rep, str):
+            m = VAR_RE.fullmatch(rep.strip())
+            rep = e['ctx'].get(m.group(1)) if m else rep
+            if isinstance(rep, str) and rep.strip().isdigit():
+                rep = int(rep.strip())
+        if rep is None or (isinstance(rep, int) and not isinstance(rep, bool) and rep >= 0):
+            own[cid] = rep or 0
+        else:
+            return None
+        if ag is None or isinstance(ag, bool):
+            agg[cid] = bool(ag)
+        else:
+            return None
+    if an.cycle:
+        return None
+    preds = {}
+    for a, b in an.edges:
+        if a in by_id and b in by_id:
+            preds.setdefault(b, set()).add(a)
+    eff = {}
+
+    def resolve(cid, depth=0):
+        if cid in eff:
+            return eff[cid]
+        if depth > len(by_id) + 1:
+            raise ValueError('cycle')
+        vals = set([own[cid]] if own[cid] else [])
+        for p in preds.get(cid, ()):
+            if not agg[p]:
+                v = resolve(p, depth + 1)
+                if v:
+                    vals.add(v)
+        if len(vals) > 1:
+            raise ValueError('inconsistent')
+        eff[cid] = vals.pop() if vals else 0
+        return eff[cid]
+
+    try:
+        for cid in sorted(by_id):
+            resolve(cid)
+    except ValueError:
+        an.grey.append('replication-open')
+        return None
+    return dict((by_id[cid]['where'], 0 if agg[cid] else eff[cid]) for cid in by_id)
 
 
 def is_derived(path):
@@ -725,7 +834,7 @@ def soundness(obs, nonc=()):
                 out.append(('unsound:reference-unparsable', '%s keeps a reference that is no reference: %r' % (n, r)))
                 continue
             stage, producer, path, method = p
-            if is_noncomponent(producer, nonc):
+            if is_noncomponent(producer, nonc, stage):
                 continue
             tid = 'stage%s.%s' % (stage if stage is not None else cfg['stage'], producer)
             if tid in nodeset:
@@ -798,6 +907,23 @@ def selfcheck():
                                              'components': [c('A', command={'executable': 'e', 'arguments': '%(x)s'})]}, 'p'), [])
     expect('other platform does not define', faults({'variables': {'p': {'global': {'x': 1}}},
                                                      'components': [c('A', command={'executable': 'e', 'arguments': '%(x)s'})]}),
+           ['undefined-variable'])
+    rep = {'workflowAttributes': {'replicate': 2}}
+    expect('replica name clash', faults({'components': [c('fan', **rep), c('fan1')]}), ['duplicate'])
+    expect('no replica name clash', faults({'components': [c('fan', **rep), c('fan2')]}), [])
+    expect('replicas clash with replicas', faults({'components': [
+        c('s', workflowAttributes={'replicate': 11}), c('s1', **rep)]}), ['duplicate'])
+    ra = {'executable': 'e', 'arguments': '%(replica)s A:ref'}
+    expect('replica inherited', faults({'components': [c('A', **rep), c('B', 0, ['A:ref'], command=ra)]}), [])
+    expect('replica without replication', faults({'components': [c('A'), c('B', 0, ['A:ref'], command=ra)]}),
+           ['undefined-variable'])
+    expect('replica in an aggregating component', faults({'components': [
+        c('A', **rep), c('B', 0, ['A:ref'], command=ra, workflowAttributes={'aggregate': True})]}), ['undefined-variable'])
+    expect('stage prefix names a component even if a folder has the name',
+           analyse({'doc': {'components': [c('x', 0, ['stage0.app:ref', 'app/bin:ref'])]}, 'dowhile': None}, None, ('app',)).faults(),
+           ['dangling'])
+    expect('index variable', faults({'variables': {'default': {'global': {'l': 'a b'}}},
+                                     'components': [c('A', command={'executable': 'e', 'arguments': '%(l)s[%(i)s]'})]}),
            ['undefined-variable'])
     an = analyse({'doc': {'components': [c('A', override={'p': {'comand': {}}})]}, 'dowhile': None}, None)
     expect('inactive scope', (an.faults(False), an.faults(True), an.unknown[0][1]), ([], ['unknown-key'], 'inactive'))
